@@ -64,7 +64,7 @@ func checkC04(c *Ctx, r *Report) {
 		})
 		okHdr := gh != nil
 		for _, m := range members {
-			if gh != nil && !instrDominates(gh, m.call) {
+			if gh != nil && !instrDominates(gh, m.at()) {
 				okHdr = false
 			}
 		}
